@@ -1236,6 +1236,10 @@ func resolveCell(v ssa.Value) (string, bool) {
 // ctxAware: in functions marked ctxaware a blocking channel operation needs a ctx.Done() alternative.
 func (ex *Exec) ctxAware(st *State, fr *Frame, instr ssa.Instruction, what string, ok bool) {
 	sp := fr.spec
+	if sp != nil && sp.NonBlock != nil {
+		// reached only for blocking operations (plain send/receive, select without default)
+		ex.oblige(st, "nonblocking", fmt.Sprintf("%s#nonblocking@%s#%d", fr.key, what, ex.ordinalOf(fr, instr, what)), sp.NonBlock.Labels, "false", sp.NonBlock, ex.posOf(instr))
+	}
 	if sp == nil || sp.CtxAware == nil {
 		return
 	}
